@@ -476,3 +476,12 @@ Example C01_example_guess :
   guess_shape (5 * 385 * 2) = Some (385, 5, 1) /\ guess_shape (6 * 384 * 2) = Some (384, 6, 0) /\
   guess_shape (384 * 385 * 2) = Some (384, 385, 0) /\ guess_shape 1000 = None.
 Proof. repeat split. Qed.
+
+(* a nidq stream without site map keeps the identity order whatever probe generation its meta
+   carries (3A-era nidq files); an imec stream without map takes the default geometry *)
+Example C01_example_nidq_3a_order :
+  reader_channel_order_t 5 true (Some G8.NP1) None [] None true = Some [0; 1; 2; 3; 4] /\
+  reader_channel_order_t 5 true None None [] None true = Some [0; 1; 2; 3; 4] /\
+  reader_channel_order_t 5 false (Some G8.NP1) None [] None true = None /\
+  reader_channel_order_t 7 false (Some G8.NP24) (Some G8.ShankMap) ex_sites None true = Some [0; 3; 1; 4; 2; 5; 6].
+Proof. repeat split; vm_compute; congruence. Qed.
